@@ -48,9 +48,16 @@ ASSUMPTIONS = [
     'The oracle is one-directional: JSON texts beyond a resource limit of the decoder (> 4300 digits, nesting beyond the recursion limit) may also be answered 400',
     'the JSON text a response carries is UTF-8 whatever the parameters of its Content-Type say (RFC 8259 8.1: no charset parameter is defined for application/json; falcon documents '
     'that it always serializes to UTF-8), and a request body is read as UTF-8 whatever its charset parameter says - the two halves of the round trip "with the same content type"',
+    '"the same error" at a later access = the same object whose observable content (class, str, args, the documented __cause__, status, title, description, headers, link, code, to_dict(), to_json()) '
+    'reads as at the first raise, so that whichever access propagates the client gets the same response; the traceback and the implicit __context__ / __suppress_context__ are not content',
 ]
 RULE = ('(a) caching contract: bodies (valid / truncated / wrong encoding / empty / deeply nested JSON, forms; 30% NOT-JSON bodies, see a2) x content types (params incl. charset in every spelling, +json, unknown) x call sequences of length 1-5 over '
-        'get_media()/get_media(default_when_empty=D)/media, WSGI and ASGI through full apps with a counting handler and a counting body stream; '
+        'get_media()/get_media(default_when_empty=D)/media (30% of the accesses made while the application is handling another, unrelated exception), WSGI and ASGI through full apps with a counting handler '
+        '(its custom failures carry a __cause__) and a counting body stream; at EVERY raise the error\'s observable content is snapshotted (class, str, args, __cause__, status, title, description, headers, link, code, '
+        'to_dict(), to_json()) and must read the same at the 1st, 2nd, 3rd ... failing access (the model line carries a content-changed mark otherwise); '
+        '(a3) the re-raised error through whole apps: malformed JSON (13 fixed + the a2 defect kinds), non-ASCII forms, empty bodies, custom handlers raising HTTPError / MediaMalformedError from a cause x 2-4 accesses x '
+        'first access in process_request / process_resource / a before-hook / the responder x default JSON / XML rendering (Accept) or an application error handler reading title / description / __cause__ / to_dict(): '
+        'for k = 1..n the first k-1 failing accesses are caught and the k-th propagates - same object, same content at every raise, the same status / content type / body for every k, and WSGI = ASGI; '
         '(a2) NOT-JSON bodies: a valid generated text with ONE well-aimed defect out of 19 kinds - a raw control character (every one of U+0000..U+001F in turn) inside a string value or an object key at any depth '
         '(between, not inside, escape sequences), truncation, trailing garbage, a structural character missing / doubled / replaced / trailing or leading comma, 25 bad numbers (01, 1., .5, +1, 0x10, non-ASCII digits ...), '
         '20 bad literals (True, nul, Inf ...), 17 bad escapes (\\x41, \\u12, \\a ...), single / missing quotes, non-JSON whitespace between tokens (VT, FF, NBSP, U+2028, NUL ...), comments, invalid UTF-8 inside strings, '
@@ -102,8 +109,8 @@ def run(ctx):
 
             def _act(self, data):
                 H.calls += 1
-                if kind == 'boom': raise Boom('handler failed')
-                if kind == 'http': raise falcon.HTTPUnprocessableEntity(description='nope')
+                if kind == 'boom': raise Boom('handler failed') from KeyError('what the handler tripped over')
+                if kind == 'http': raise falcon.HTTPUnprocessableEntity(description='nope') from ValueError('inner detail')
                 return self._deserialize(data)
 
             def deserialize(self, stream, ct, cl):
@@ -170,6 +177,29 @@ def run(ctx):
         if isinstance(e, falcon.HTTPUnprocessableEntity): return 'oth:2'
         return 'EXC:' + type(e).__name__
 
+    def snap(e):
+        """The observable CONTENT of an error object as an application that catches, logs or renders it reads it: class, text, args, the documented
+        __cause__, and for HTTP errors status / title / description / headers / link / code / to_dict() / to_json().  Identity is judged separately;
+        the traceback and the implicit __context__ (which legitimately depend on where the access was made) are not content."""
+        c = e.__cause__
+        d = {'class': type(e).__name__, 'str': str(e), 'repr': repr(e), 'args': repr(e.args), 'cause': None if c is None else f'{type(c).__name__}: {c}',
+             'cause_object': None if c is None else id(c)}
+        if isinstance(e, falcon.HTTPError):
+            for a in ('status', 'status_code', 'title', 'description', 'headers', 'link', 'code'):
+                try:
+                    d[a] = repr(getattr(e, a))
+                except Exception as x:  # noqa
+                    d[a] = 'reading it raises ' + type(x).__name__
+            for a in ('to_dict', 'to_json'):
+                try:
+                    d[a + '()'] = repr(getattr(e, a)())
+                except Exception as x:  # noqa
+                    d[a + '()'] = 'calling it raises ' + type(x).__name__
+        return d
+
+    def snap_diff(a, b, skip=()):
+        return {k: (a.get(k), b.get(k)) for k in sorted(set(a) | set(b)) if k not in skip and a.get(k) != b.get(k)}
+
     # ------------------------------------------------------------ (a) caching contract
     for ci in range(ctx.n(500, 6000)):
         stack = rnd.choice(['wsgi', 'asgi'])
@@ -184,6 +214,8 @@ def run(ctx):
             ctx.count('a_body_' + ikind)
         if rnd.random() < 0.1 and body: body = body[:rnd.randrange(len(body))]
         seq = [rnd.choice(['m', 'd', 'p']) for _ in range(rnd.randint(1, 5))]
+        # where an access is made is part of the history: 30% of them happen while the application is handling another (unrelated) exception
+        nested = [rnd.random() < 0.3 for _ in seq]
         ctype = rnd.choice(['application/json', 'application/json', 'application/json; charset=utf-8', 'application/json;v=1', 'application/json ; charset="utf-8"'])
         if rnd.random() < 0.25:
             ctype = LJ.gen_json_ctype(rnd)[0]
@@ -196,23 +228,40 @@ def run(ctx):
             class R:
                 def on_post(self, req, resp):
                     raw = req.env['wsgi.input']
-                    for s in seq:
+
+                    def acc(s):
+                        return req.get_media() if s == 'm' else (req.get_media(default_when_empty=DEF) if s == 'd' else req.media)
+                    for s, nest in zip(seq, nested):
                         try:
-                            v = req.get_media() if s == 'm' else (req.get_media(default_when_empty=DEF) if s == 'd' else req.media)
+                            if nest:
+                                try:
+                                    raise LookupError('an unrelated failure the application is handling')
+                                except LookupError:
+                                    v = acc(s)
+                            else:
+                                v = acc(s)
                             outs.append(('dflt',) if v is DEF else ('value', note(v), v))
                         except Exception as e:  # noqa
-                            outs.append(('raise', exc_tag(e), e))
+                            outs.append(('raise', exc_tag(e), e, snap(e)))
                         streamops.append(getattr(raw, 'ops', None))
             app = falcon.App()
         else:
             class R:
                 async def on_post(self, req, resp):
-                    for s in seq:
+                    async def acc(s):
+                        return await (req.get_media() if s == 'm' else (req.get_media(default_when_empty=DEF) if s == 'd' else req.media))
+                    for s, nest in zip(seq, nested):
                         try:
-                            v = await (req.get_media() if s == 'm' else (req.get_media(default_when_empty=DEF) if s == 'd' else req.media))
+                            if nest:
+                                try:
+                                    raise LookupError('an unrelated failure the application is handling')
+                                except LookupError:
+                                    v = await acc(s)
+                            else:
+                                v = await acc(s)
                             outs.append(('dflt',) if v is DEF else ('value', note(v), v))
                         except Exception as e:  # noqa
-                            outs.append(('raise', exc_tag(e), e))
+                            outs.append(('raise', exc_tag(e), e, snap(e)))
                         streamops.append(recv_count[0])
             app = falcon.asgi.App()
         app.req_options.media_handlers['application/json'] = H()
@@ -251,6 +300,15 @@ def run(ctx):
         vals = [o for o in outs if o[0] == 'value']; excs = [o for o in outs if o[0] == 'raise']
         if len({o[1] for o in vals}) > 1: failed = failed or 'later calls returned a different object'
         if len({id(o[2]) for o in excs}) > 1 and len({o[1] for o in excs}) > 1: failed = failed or 'later calls raised a different error'
+        # "re-raise the same error": what the error SAYS at the 2nd, 3rd ... access is what it said at the first (snapshots taken at each raise)
+        changed_at = None
+        for i_, o in enumerate(excs[1:], 2):
+            dd = snap_diff(excs[0][3], o[3])
+            if dd:
+                changed_at = i_
+                failed = failed or f'the error raised at failing access #{i_} is not the same error as at the first one: {dd}'
+                break
+        if len(excs) > 1: ctx.count('a_error_content_compared_over_%d_raises' % min(len(excs), 4))
         exp = []
         for s in seq:
             if ref == 'ok': exp.append('value')
@@ -264,15 +322,19 @@ def run(ctx):
             if o[1] in ('nf', 'mal') and not (isinstance(o[2], falcon.HTTPError) and 400 <= o[2].status_code < 500): failed = failed or 'media error is not a 400-class HTTP error'
             if o[1].startswith('EXC:'): failed = failed or f'undocumented exception {o[1]}'
         ctx.oracle('request media: parsed at most once; same object / same error; default only for not-found and not cached; stream untouched afterwards; undecodable -> 400 class',
-                   failed is None, failed, {'stack': stack, 'handler': kind, 'content_type': ctype, 'body': body[:200], 'body_len': len(body), 'calls': seq})
+                   failed is None, failed, {'stack': stack, 'handler': kind, 'content_type': ctype, 'body': body[:200], 'body_len': len(body), 'calls': seq,
+                                            'access_made_while_handling_another_exception': nested})
         ctx.seen((stack, kind, ctype, body[:64], len(body), tuple(seq)), bool(body))
         ctx.count('ref_' + ref.split(':')[0]); ctx.count('stack_' + stack)
         # model correspondence
         sess.case({'stack': stack, 'kind': kind, 'body': body[:60], 'seq': seq})
         sess.op(f'new {"ok:0" if ref == "ok" else ref} 1', 'ok')
+        first_exc = excs[0][3] if excs else None
         for s, o in zip(seq, outs):
             if o[0] == 'escaped': break
             r = 'dflt' if o[0] == 'dflt' else (f'value {o[1]}' if o[0] == 'value' else f'raise {o[1]}')
+            # (the model re-raises the cached error VALUE: an error whose content is no longer that of the first raise is another value)
+            if o[0] == 'raise' and snap_diff(first_exc, o[3]): r += '/content-changed:' + ','.join(snap_diff(first_exc, o[3]))
             sess.op(f'get {1 if s == "d" else 0}', f'{r} des={H.calls}')
         # JSON wrapper on the plain (non-subclassed) handler
         if kind == 'json':
@@ -288,6 +350,217 @@ def run(ctx):
             except RecursionError: l = 're'
             except ValueError: l = 've'
             sess.op(f'json {0 if body else 1} {l}', w)
+
+    # ------------------------------------------------------------ (a3) the re-raised error is the SAME error: content at every access, and the response the client gets
+    # One request, n = 2..4 accesses (media / get_media() / get_media(default_when_empty=...)), made in a middleware method, a before-hook or the responder.
+    # The first k-1 failing accesses are caught by the application, the k-th one propagates to the framework: for k = 1..n the client must get the same
+    # error response (default JSON / XML rendering, or an application error handler that reads title / description / __cause__ / to_dict()), and every
+    # error object observed along the way must read the same as at the first raise.  Run on both stacks.
+    name_a3 = ('re-raised media error: at the 1st, 2nd, 3rd ... failing access of one request (media / get_media, made in a middleware, a hook or the responder, possibly while another '
+               'exception is being handled) the error raised is the same object with the same observable content (class, status, title, description, to_dict(), to_json(), headers, '
+               'str, args, __cause__), and whichever access is the one that propagates, the client gets the same error response - on WSGI and ASGI')
+    MAL_JSON = [b'[1,2', b'\xff\xfe', b'{"a": 1, "b" 2}', b'{"a":1}garbage', b'\xef\xbb\xbf{}', b'"\xe9"', b'9' * 5000, b'{"k": tru}', b"{'a': 1}", b'{"a": "\x01"}', b'[1,]', b'"abc', b'\x00']
+    MAL_FORM = [b'a=\xe9', 'k=ü&x=1'.encode(), b'\xff', b'a=1&b=\x80\x81']
+    FORM_T3 = 'application/x-www-form-urlencoded'
+
+    def a3_run(stack, fmt, body, ctype, seq3, nested3, where, k, render, accept):
+        """one request; accesses 1..k-1 are caught, from the k-th on they propagate.  -> (status, content type, body, [snapshot per raising access], [id per raising access])"""
+        snaps, ids3, propagated = [], [], []
+        asgi3 = stack == 'asgi'
+
+        class CH(media.JSONHandler):
+            def _fail(self, data):
+                if fmt == 'custom_http': raise falcon.HTTPUnprocessableEntity(title='Unprocessable', description='cannot use this: %d bytes' % len(data)) from ValueError('inner detail of the custom handler')
+                raise errors.MediaMalformedError('JSON') from ValueError('custom detail: first byte %r' % data[:1])
+
+            def deserialize(self, stream, ct, cl):
+                self._fail(stream.read())
+
+            async def deserialize_async(self, stream, ct, cl):
+                self._fail(await stream.read())
+
+        def plan_for(stage):
+            return [i for i in range(len(seq3)) if (where if i == 0 else 'responder') == stage]
+
+        def do_sync(req, i):
+            s = seq3[i]
+            def acc():
+                return req.get_media() if s == 'm' else (req.get_media(default_when_empty=DEF) if s == 'd' else req.media)
+            try:
+                if nested3[i]:
+                    try:
+                        raise LookupError('an unrelated failure the application is handling')
+                    except LookupError:
+                        acc()
+                else:
+                    acc()
+            except Exception as e:  # noqa
+                snaps.append(snap(e)); ids3.append(id(e))
+                if i + 1 >= k:
+                    propagated.append(len(snaps)); raise
+
+        async def do_async(req, i):
+            s = seq3[i]
+            async def acc():
+                return await (req.get_media() if s == 'm' else (req.get_media(default_when_empty=DEF) if s == 'd' else req.media))
+            try:
+                if nested3[i]:
+                    try:
+                        raise LookupError('an unrelated failure the application is handling')
+                    except LookupError:
+                        await acc()
+                else:
+                    await acc()
+            except Exception as e:  # noqa
+                snaps.append(snap(e)); ids3.append(id(e))
+                if i + 1 >= k:
+                    propagated.append(len(snaps)); raise
+
+        if asgi3:
+            async def hook(req, resp, resource, params):
+                for i in plan_for('hook'): await do_async(req, i)
+
+            class MW:
+                async def process_request(self, req, resp):
+                    for i in plan_for('mw_request'): await do_async(req, i)
+
+                async def process_resource(self, req, resp, resource, params):
+                    for i in plan_for('mw_resource'): await do_async(req, i)
+
+            class R3:
+                @falcon.before(hook)
+                async def on_post(self, req, resp):
+                    for i in plan_for('responder'): await do_async(req, i)
+                    resp.media = {'ok': True}
+
+            async def on_err(req, resp, ex, params, **kw):
+                resp.status = ex.status
+                resp.media = {'title': ex.title, 'description': ex.description, 'cause': repr(ex.__cause__), 'dict': ex.to_dict()}
+            app = falcon.asgi.App(middleware=[MW()])
+        else:
+            def hook(req, resp, resource, params):
+                for i in plan_for('hook'): do_sync(req, i)
+
+            class MW:
+                def process_request(self, req, resp):
+                    for i in plan_for('mw_request'): do_sync(req, i)
+
+                def process_resource(self, req, resp, resource, params):
+                    for i in plan_for('mw_resource'): do_sync(req, i)
+
+            class R3:
+                @falcon.before(hook)
+                def on_post(self, req, resp):
+                    for i in plan_for('responder'): do_sync(req, i)
+                    resp.media = {'ok': True}
+
+            def on_err(req, resp, ex, params):
+                resp.status = ex.status
+                resp.media = {'title': ex.title, 'description': ex.description, 'cause': repr(ex.__cause__), 'dict': ex.to_dict()}
+            app = falcon.App(middleware=[MW()])
+        app.add_route('/', R3())
+        if fmt.startswith('custom'):
+            app.req_options.media_handlers['application/json'] = CH()
+        if render == 'handler':
+            app.add_error_handler(falcon.HTTPError, on_err)
+        hdrs = {'Content-Type': ctype, 'Content-Length': str(len(body))}
+        if accept: hdrs['Accept'] = accept
+        out = {'body': b''}
+        if not asgi3:
+            env = ft.create_environ(method='POST', path='/', headers=hdrs, body=body)
+            st = []
+            out['body'] = b''.join(app(env, lambda sline, h, e=None: st.append((sline, h))))
+            return int(st[0][0][:3]), dict((k_.lower(), v) for k_, v in st[0][1]).get('content-type'), out['body'], snaps, ids3, propagated
+        scope = ft.create_scope(method='POST', path='/', headers=hdrs)
+        chunks = rnd.choice(list(chunkings(body)))
+        evs = [{'type': 'http.request', 'body': c, 'more_body': i < len(chunks) - 1} for i, c in enumerate(chunks)]
+
+        async def go():
+            never = asyncio.get_running_loop().create_future()
+
+            async def receive():
+                if evs: return evs.pop(0)
+                await never
+
+            async def send(m):
+                if m['type'] == 'http.response.start':
+                    out['status'] = m['status']; out['ct'] = {k_.decode().lower(): v.decode() for k_, v in m['headers']}.get('content-type')
+                elif m['type'] == 'http.response.body':
+                    out['body'] += m.get('body', b'')
+            await asyncio.wait_for(app(scope, receive, send), 5)
+        asyncio.run(go())
+        return out['status'], out['ct'], out['body'], snaps, ids3, propagated
+
+    for ci in range(ctx.n(220, 3000)):
+        fmt = rnd.choice(['json'] * 6 + ['form'] * 2 + ['custom_http', 'custom_mal', 'empty'])
+        ctype = 'application/json' if rnd.random() < 0.7 else LJ.gen_json_ctype(rnd)[0]
+        if fmt == 'json':
+            if rnd.random() < 0.5:
+                body = rnd.choice(MAL_JSON)
+            else:
+                _, body = LJ.gen_invalid(rnd, ctrl=chr(ci % 32))
+                if LJ.json_verdict(body) != 'invalid' or len(body) > 20000:
+                    body = rnd.choice(MAL_JSON)
+        elif fmt == 'form':
+            body = rnd.choice(MAL_FORM); ctype = FORM_T3
+        elif fmt == 'empty':
+            body = b''
+        else:
+            body = json.dumps(gen_doc()).encode()
+        n3 = rnd.randint(2, 4)
+        seq3 = [rnd.choice(['m', 'm', 'p', 'p', 'd']) for _ in range(n3)]
+        nested3 = [rnd.random() < 0.35 for _ in range(n3)]
+        where = rnd.choice(['responder', 'responder', 'mw_request', 'mw_resource', 'hook'])
+        render = rnd.choice(['default', 'default', 'handler'])
+        accept = rnd.choice([None, 'application/json', 'text/xml', 'application/xml']) if render == 'default' else None
+        failed = None
+        per_stack = {}
+        case3 = {'format': fmt, 'content_type': ctype, 'body': body[:200], 'body_len': len(body), 'accesses': seq3, 'access_made_while_handling_another_exception': nested3,
+                 'first_access_in': where, 'error_rendering': render, 'accept': accept}
+        for stack in ('wsgi', 'asgi'):
+            runs = {}
+            for k in range(1, n3 + 1):
+                try:
+                    runs[k] = a3_run(stack, fmt, body, ctype, seq3, nested3, where, k, render, accept)
+                except Exception as e:  # noqa
+                    failed = failed or f'{stack}, accesses 1..{k - 1} caught: the request raised {type(e).__name__}: {e}'
+            per_stack[stack] = runs
+            ref_run = None
+            for k, (st3, ct3, b3, snaps, ids3, prop3) in runs.items():
+                if failed: break
+                if len(set(ids3)) > 1:
+                    failed = f'{stack}, accesses 1..{k - 1} caught: the failing accesses raised {len(set(ids3))} different error objects'
+                for j, sn in enumerate(snaps[1:], 2):
+                    dd = snap_diff(snaps[0], sn)
+                    if dd:
+                        failed = failed or f'{stack}, accesses 1..{k - 1} caught: the error raised at failing access #{j} no longer reads like the one raised at the first: {dd}'
+                        break
+                if not prop3:
+                    # (every failing access was caught, or answered by default_when_empty: the responder completes)
+                    if st3 != 200: failed = failed or f'{stack}, accesses 1..{k - 1} caught and no later access fails: answered {st3}'
+                    continue
+                if ref_run is None:
+                    ref_run = (k, st3, ct3, b3, snaps[0])
+                    if not 400 <= st3 < 500: failed = failed or f'{stack}: a failed media access that propagates is answered {st3}'
+                    continue
+                k0, st0, ct0, b0, sn0 = ref_run
+                dd = snap_diff(sn0, snaps[0], skip=('cause_object',))
+                if dd:
+                    failed = failed or f'{stack}: the same request fails differently when accesses 1..{k - 1} (instead of 1..{k0 - 1}) are caught: {dd}'
+                elif (st3, ct3, b3) != (st0, ct0, b0):
+                    failed = failed or (f'{stack}: when failing access #{prop3[0]} is the one that propagates the client gets {st3} {ct3} {b3[:300]!r}, '
+                                        f'when failing access #{runs[k0][5][0]} propagates it gets {st0} {ct0} {b0[:300]!r}')
+            if failed: break
+        if failed is None:
+            w_, a_ = per_stack['wsgi'], per_stack['asgi']
+            for k in w_:
+                if k in a_ and w_[k][5] and a_[k][5] and w_[k][:3] != a_[k][:3]:
+                    failed = f'accesses 1..{k - 1} caught: WSGI answers {w_[k][0]} {w_[k][1]} {w_[k][2][:300]!r}, ASGI answers {a_[k][0]} {a_[k][1]} {a_[k][2][:300]!r}'
+                    break
+        ctx.oracle(name_a3, failed is None, failed, case3)
+        ctx.seen(('a3', fmt, ctype, body[:200], tuple(seq3), tuple(nested3), where, render, accept), bool(body))
+        ctx.count('a3_' + fmt); ctx.count('a3_first_access_in_' + where); ctx.count('a3_render_' + render)
+        ctx.count('a3_accesses_%d' % n3)
 
     # ------------------------------------------------------------ (b) round trips
     def post_back(stack, ctype, body, chunks, handler=None):
